@@ -841,7 +841,8 @@ pub fn script_leg(args: &Args) {
     for name in NOSCRIPT.iter() {
         for extra in [vec![], vec![s("k")], vec![s("k"), s("1")]] {
             for mode in ["call", "pcall"] {
-                let script = format!("return redis.{}(unpack(ARGV))", mode);
+                // explicit argument lists (Lua 5.4 has no global unpack)
+                let script = format!("return redis.{}({})", mode, (1..=extra.len() + 1).map(|i| format!("ARGV[{}]", i)).collect::<Vec<_>>().join(", "));
                 let run = |spelling: String| -> (RespValue, RespValue, RespValue, RespValue) {
                     let mut ex = CommandExecutor::new();
                     let _ = run_frame(&mut ex, &[s("SET"), s("probe"), s("0")]);
